@@ -19,6 +19,16 @@ COQ = os.path.join(VERIF, "coq")
 WORK = os.path.join(VERIF, "work")
 # an alternative copy of the harness (path deps pointing at a scratch worktree) can be selected for experiments
 HARNESS = os.environ.get("VERIF_HARNESS_DIR", os.path.join(VERIF, "harness"))
+
+
+def harness_dir(P):
+    """The default harness builds des with its default features.  A props module may name another harness crate
+    (P.HARNESS = "harness_heap": des built WITHOUT the cqueue feature); VERIF_HARNESS_DIR_<SUFFIX> overrides it."""
+    name = getattr(P, "HARNESS", "harness")
+    if name == "harness":
+        return HARNESS
+    suffix = name.split("_", 1)[1].upper() if "_" in name else name.upper()
+    return os.environ.get("VERIF_HARNESS_DIR_" + suffix, os.path.join(VERIF, name))
 NPROC = 16
 
 ALLOWED_AXIOMS = {
@@ -150,10 +160,11 @@ def build_runners(P):
     rc, out = sh("make modelrun MODEL=%s" % P.MODEL, timeout=1200)
     if rc != 0:
         problems.append("model runner build failed:\n" + "\n".join(out.splitlines()[-20:]))
-    if not os.path.exists(os.path.join(HARNESS, "Cargo.lock")):
+    hd = harness_dir(P)
+    if not os.path.exists(os.path.join(hd, "Cargo.lock")):
         # offline resolution needs a lock file; /repo's lock pins every crate the harness uses
-        shutil.copy("/repo/Cargo.lock", os.path.join(HARNESS, "Cargo.lock"))
-    rc, out = sh("cargo build --offline --bin %s 2>&1" % P.IMPL, cwd=HARNESS, timeout=3000)
+        shutil.copy("/repo/Cargo.lock", os.path.join(hd, "Cargo.lock"))
+    rc, out = sh("cargo build --offline --bin %s 2>&1" % P.IMPL, cwd=hd, timeout=3000)
     if rc != 0:
         errs = [l for l in out.splitlines() if l.startswith("error")][:10]
         problems.append("implrun does not build against /repo's working tree:\n" + "\n".join(errs or out.splitlines()[-20:]))
@@ -211,7 +222,7 @@ def run_sharded(cmd, lines, tag, timeout=900):
 
 
 def impl_cmd(P):
-    return os.path.join(HARNESS, "target", "debug", P.IMPL)
+    return os.path.join(harness_dir(P), "target", "debug", P.IMPL)
 
 
 def model_cmd(P):
